@@ -7,7 +7,7 @@
    collisions, wrap-around at the last slot and redistribution after doubling.
    MUT = mutant switches (anti-vacuity). *)
 EXTENDS Naturals, Integers, Sequences, FiniteSets, TLC
-CONSTANTS Keys, Vals, InitSize, MaxSize, HashOf, MUT, DelSets
+CONSTANTS Keys, Vals, InitSize, MaxSize, HashOf, MUT, DelSets, ResizeTo
 VARIABLES slots, head, tail, count, size, last
 vars == <<slots, head, tail, count, size, last>>
 EMPTY == "EMPTY"  FREED == "FREED"  NIL == 99
@@ -62,6 +62,17 @@ NeedResize(t) == t.c * 100 >= t.sz * 66            \* count >= size * LH_LOAD_FA
 \* lh_table_insert_w_hash
 TableInsert(t, k, v) == RawInsert(IF NeedResize(t) THEN Resized(t, t.sz * 2) ELSE t, k, v)
 
+\* lh_table_resize(t, newsz) called by the user with any positive size: a NEW table of newsz slots is filled through
+\* lh_table_insert_w_hash, which applies the load rule to the new table itself - a requested size that is too
+\* small for the entries grows on the way, and the table ends up with the size the new table reached.
+\* (as found, "resize_keeps_request": the requested size was stored next to the bigger slot array)
+RECURSIVE ReinsertG(_, _, _)
+ReinsertG(t, olds, order) == IF order = <<>> THEN t
+                             ELSE ReinsertG(TableInsert(t, olds[Head(order)].k, olds[Head(order)].v), olds, Tail(order))
+ResizedTo(t, newsz) ==
+   LET empty == [s |-> [i \in Idx(newsz) |-> Blank], sz |-> newsz, hd |-> NIL, tl |-> NIL, c |-> 0]
+   IN ReinsertG(empty, t.s, Walk(t.s, t.hd))
+
 \* lh_table_delete_entry at slot n
 TableDelete(t, n) ==
    LET e == t.s[n]
@@ -114,13 +125,20 @@ ForeachDel(P) ==
    /\ Set(r.t)
    /\ last' = [op |-> "fdel", k |-> "", v |-> 0, ret |-> 0, ks |-> SetToSeq(P), visited |-> r.vis]
 
+UserResize(newsz) ==
+   LET r == ResizedTo(Cur, newsz) IN
+   /\ r.sz <= MaxSize
+   /\ Set(IF "resize_keeps_request" \in MUT THEN [r EXCEPT !.sz = newsz] ELSE r)
+   /\ last' = [op |-> "resize", k |-> "", v |-> newsz, ret |-> 0, ks |-> <<>>, visited |-> <<>>]
+
 Init == /\ size = InitSize /\ slots = [i \in Idx(InitSize) |-> Blank] /\ head = NIL /\ tail = NIL /\ count = 0
         /\ last = [op |-> "new", k |-> "", v |-> 0, ret |-> 0, ks |-> <<>>, visited |-> <<>>]
 OpAdd == \E k \in Keys, v \in Vals : Add(k, v)
 OpAddNew == \E k \in Keys, v \in Vals : AddNew(k, v)
 OpDel == \E k \in Keys : Del(k)
 OpForeachDel == \E P \in DelSets : ForeachDel(P)
-Next == OpAdd \/ OpAddNew \/ OpDel \/ OpForeachDel
+OpResize == \E n \in ResizeTo : UserResize(n)
+Next == OpAdd \/ OpAddNew \/ OpDel \/ OpForeachDel \/ OpResize
 Spec == Init /\ [][Next]_vars
 
 -----------------------------------------------------------------------------
@@ -130,7 +148,8 @@ Refines == OM!Spec
 
 LookupOK == \A k \in Keys : (Find(slots, size, k) # NIL) <=> (\E i \in Idx(size) : slots[i].k = k)
 LookupValueOK == \A k \in Keys : LET n == Find(slots, size, k) IN n # NIL => slots[n].v = OM!Get(Abs, k)
-CountOK == count = Cardinality({i \in Idx(size) : Live(slots, i)}) /\ count < size
+\* (a table may be full - 1 entry in 1 slot, 2 in 2, after a user resize - because every insertion applies the load rule first)
+CountOK == count = Cardinality({i \in Idx(size) : Live(slots, i)}) /\ (count < size \/ NeedResize(Cur)) /\ DOMAIN slots = Idx(size)
 ListOK == LET w == Walk(slots, head) IN
             /\ {w[i] : i \in 1..Len(w)} = {i \in Idx(size) : Live(slots, i)}
             /\ Len(w) = count
